@@ -32,21 +32,22 @@ deriving Repr
 
 /-! ## `groupby` over chunks + `join_groupbys` -/
 
+/-- put one entry `(name, id)` in front of a group list -/
+def consEntry (e : Name × Nat) : List Group → List Group
+  | g :: t => if g.name = e.1 then { name := e.1, items := e.2 :: g.items } :: t
+              else { name := e.1, items := [e.2] } :: g :: t
+  | [] => [{ name := e.1, items := [e.2] }]
+
 /-- groups of one chunk: maximal runs of equal contig name; entries are `(name, id)` -/
-def chunkGroups : List (Name × Nat) → List Group
-  | [] => []
-  | (n, i) :: r =>
-    match chunkGroups r with
-    | g :: t => if g.name = n then { name := n, items := i :: g.items } :: t else { name := n, items := [i] } :: g :: t
-    | [] => [{ name := n, items := [i] }]
+def chunkGroups (l : List (Name × Nat)) : List Group := l.foldr consEntry []
+
+/-- put one group in front of an already joined group list -/
+def joinOne (g : Group) : List Group → List Group
+  | h :: t => if h.name = g.name then { name := g.name, items := g.items ++ h.items } :: t else g :: h :: t
+  | [] => [g]
 
 /-- `join_groupbys`: consecutive groups with the same key (across chunk borders) are concatenated -/
-def joinGroups : List Group → List Group
-  | [] => []
-  | g :: r =>
-    match joinGroups r with
-    | h :: t => if h.name = g.name then { name := g.name, items := g.items ++ h.items } :: t else g :: h :: t
-    | [] => [g]
+def joinGroups (l : List Group) : List Group := l.foldr joinOne []
 
 /-- the grouped stream of a chunked data stream -/
 def groupsOfChunks (chunks : List (List (Name × Nat))) : List Group :=
@@ -113,31 +114,34 @@ def IterSt.pull (s : IterSt) : Step IterSt :=
 /-! ## `SynchedStream.__iter__` -/
 
 structure SyncSt where
-  order : List Name
-  idx : Nat
-  seen : List Name
+  order : List Name             -- `contig_order`
+  rest : List Name              -- `contig_order[cur_contig_idx:]`
+  seen : List Name              -- `seen_contig_names`
   src : List Group
   cur : Option Group            -- the group being placed (inside the `while` loop)
   tail : Bool                   -- the `for` loop over the groups has ended
 deriving Repr
 
 def SyncSt.init (order : List Name) (gs : List Group) : SyncSt :=
-  { order := order, idx := 0, seen := [], src := gs, cur := none, tail := false }
+  { order := order, rest := order, seen := [], src := gs, cur := none, tail := false }
 
-/-- the `while` loop and the `if name == contig_order[idx]` below it, for the group `g` -/
+/-- the `while` loop and the `if name == contig_order[cur_contig_idx]` below it, for the group `g`
+(`contig_order[cur_contig_idx]` is the head of `rest`; past the end it is an `IndexError`) -/
 def SyncSt.place (s : SyncSt) (g : Group) : Step SyncSt :=
-  match s.order[s.idx]? with
-  | some n =>
-    if g.name ≠ n then .yield [] { s with seen := s.seen ++ [n], idx := s.idx + 1, cur := some g }
-    else .yield g.items { s with seen := s.seen ++ [n], idx := s.idx + 1, cur := none }
-  | none => .error
+  match s.rest with
+  | n :: rest' =>
+    if g.name ≠ n then .yield [] { s with seen := s.seen ++ [n], rest := rest', cur := some g }
+    else .yield g.items { s with seen := s.seen ++ [n], rest := rest', cur := none }
+  | [] => .error
 
 def SyncSt.pull (s : SyncSt) : Step SyncSt :=
   match s.cur with
   | some g => s.place g
   | none =>
     if s.tail then
-      (if s.idx < s.order.length then .yield [] { s with idx := s.idx + 1 } else .done)
+      (match s.rest with
+        | _ :: r => .yield [] { s with rest := r }
+        | [] => .done)
     else
       match s.src with
       | g :: r =>
@@ -145,7 +149,9 @@ def SyncSt.pull (s : SyncSt) : Step SyncSt :=
         else if !s.order.contains g.name then .error
         else SyncSt.place { s with src := r } g
       | [] =>
-        if s.idx < s.order.length then .yield [] { s with idx := s.idx + 1, tail := true } else .done
+        match s.rest with
+        | _ :: r => .yield [] { s with rest := r, tail := true }
+        | [] => .done
 
 /-! ## `left_join` -/
 
